@@ -80,16 +80,26 @@ Definition l2_reader_u k := tables_eqb (read_file the_guard false false (u_out k
 Definition unphased_all k := okb (u_read k) (forallb (fun tb => forallb (fun rw =>
    forallb (fun p => match p with None => true | Some _ => false end) (row_phases rw)) (snd tb))).
 
-(* r_reads: the reads `whatshap phase base.vcf phased.vcf` worked with, per (chromosome, sample column), from its trace *)
+(* r_reads: the reads `whatshap phase base.vcf phased.vcf` worked with, per (chromosome, sample column), from its trace.
+   The phase sets to be reproduced and the result are read off the pysam-parsed records of phased.vcf / re.vcf with the
+   reader MODEL (so that a defect of VcfReader cannot hide on both sides); r_orig / r_re are what the real VcfReader
+   returns for the same files and must agree with the model (L2). *)
 Record rstep := mkRStep { r_samples : list nat; r_base : res tabs; r_orig : res tabs; r_re : res tabs;
+  r_base_recs : list vrec; r_orig_recs : list vrec; r_re_recs : list vrec;
   r_reads : list (token * nat * list (list (Z * nat))) }.
-Definition reproduced k := match r_base k, r_orig k, r_re k with
+Definition m_base k := read_file the_guard false false (r_base_recs k).
+Definition m_orig k := read_file the_guard false false (r_orig_recs k).
+Definition m_re k := read_file the_guard false false (r_re_recs k).
+Definition reproduced k := match m_base k, m_orig k, m_re k with
   | Ok b, Ok o, Ok r => tables_reproduce (r_samples k) b o r | _, _, _ => false end.
+Definition l2_reader_base k := tables_eqb (m_base k) (r_base k).
+Definition l2_reader_orig k := tables_eqb (m_orig k) (r_orig k).
+Definition l2_reader_re k := tables_eqb (m_re k) (r_re k).
 Definition find_tab (l : tabs) (c : token) : list row :=
   match find (fun e => fst e =? c) l with Some e => snd e | None => [] end.
 (* L2 for phased_blocks_as_reads: every read the real run used is a pseudo read of the model (same positions and
-   alleles), computed from the tables read back from the phased file and the heterozygous positions of base.vcf *)
-Definition l2_reads k := match r_base k, r_orig k with
+   alleles), computed from the tables of the phased file and the heterozygous positions of base.vcf *)
+Definition l2_reads k := match m_base k, m_orig k with
   | Ok b, Ok o =>
     forallb (fun e => let '(c, i, rds) := e in
        let model := map (fun x => map (fun v => (fst (fst v), snd (fst v))) (snd x))
@@ -120,7 +130,7 @@ P_CHECKS = {k: k for k in ["complete_PS", "complete_HP", "l2_writer_PS", "l2_wri
                            "decode_PS_ok", "decode_HP_ok", "quality_PS", "quality_HP", "nostale_PS", "nostale_HP", "equiv",
                            "fixed_ok"]}
 U_CHECKS = {k: k for k in ["l2_unphase", "l2_reader_u", "unphased_all"]}
-R_CHECKS = {"reproduced": "reproduced", "l2_reads": "l2_reads"}
+R_CHECKS = {"reproduced": "reproduced", "l2_reads": "l2_reads", "l2_reader_orig": "l2_reader_orig", "l2_reader_base": "l2_reader_base", "l2_reader_re": "l2_reader_re"}
 
 ERRMAP = {"AttributeError": "EAttr", "MixedPhasingError": "EMixed", "ValueError": "EValue", "AssertionError": "EAssert",
           "IndexError": "EIndex", "KeyError": "EKey", "VcfNotSortedError": "EUnsorted"}
@@ -344,6 +354,12 @@ def run_history(ctx, wd, idx, sc, reads, base, start, steps):
             synth.write_ped(os.path.join(d, "fam.ped"), [tuple(st["ped"])])
     cur = "s0.vcf"
     out = []
+    if start.text() != base.text():
+        # the generated pre-phased file itself as the only phase input (its phase sets are known independently of
+        # any whatshap run)
+        rc, so, se = util.run_cli(ctx, ["phase", "-o", "re0.vcf", "base.vcf", "s0.vcf"], cwd=d,
+                                  env_extra={"WHATSHAP_VERIF_TRACE": os.path.join(d, "retrace0.jsonl")})
+        out.append({"step": -1, "st": {"kind": "start_reinput"}, "hist": idx, "dir": d, "in": "s0.vcf", "re": ("re0.vcf", rc, se[-2500:])})
     for si, st in enumerate(steps):
         rec = {"step": si, "st": st, "hist": idx, "dir": d, "in": cur}
         if st["kind"] == "unphase":
@@ -431,6 +447,32 @@ def nonascending_source(fin, fout, plan):
     return False
 
 
+def make_rcase(ctx, d, samples, phased_file, rb_phased, re_file, retrace, cap, desc, replay, R):
+    """one `whatshap phase base.vcf <phased_file>` run -> a case for the reproduction check"""
+    it = vcfabs.Interner()
+    if rb_phased[0] == "ok" and max_set_coverage(rb_phased[1]) > cap:
+        ctx.tally("reinput.sets_over_coverage_cap")      # the property only speaks about sets that fit
+        return
+    ctx.tally("reinput.max_coverage.%d" % cap)
+    if rb_phased[0] == "ok" and max_set_coverage(rb_phased[1]) == cap:
+        ctx.tally("reinput.sets_exactly_at_cap")
+    rb_base = read_back(os.path.join(d, "base.vcf"))
+    rb_re = read_back(os.path.join(d, re_file))
+    f_base = vcfabs.parse_vcf(os.path.join(d, "base.vcf"))
+    f_ph = vcfabs.parse_vcf(os.path.join(d, phased_file))
+    f_re = vcfabs.parse_vcf(os.path.join(d, re_file))
+    rreads = []
+    for ln in (json.loads(x) for x in open(retrace)) if os.path.exists(retrace) else []:
+        if len(ln["family"]) == 1:
+            rds = ["[" + "; ".join(f"({vcfabs._z(int(v[0]))}, {int(v[1])}%nat)" for v in r["variants"]) + "]" for r in ln["reads"]]
+            rreads.append(f"({vcfabs._z(vcfabs.chrom_token(ln['chromosome'], it))}, {samples.index(ln['family'][0])}%nat, [" + "; ".join(rds) + "])")
+    rterm = ("(mkRStep [" + "; ".join(f"{i}%nat" for i in range(len(samples))) + "]\n " + tabs_term(rb_base, it) + "\n "
+             + tabs_term(rb_phased, it) + "\n " + tabs_term(rb_re, it) + "\n " + vcfabs.recs_term(f_base.records, it) + "\n "
+             + vcfabs.recs_term(f_ph.records, it) + "\n "
+             + vcfabs.recs_term(f_re.records, it) + "\n [" + ";\n ".join(rreads) + "])")
+    R.append({"term": rterm, "desc": desc, "replay": replay})
+
+
 def build_cases(ctx, results, inputs):
     P, U, R = [], [], []
     for hist, (sc, reads, base, start, steps, pre, shapes) in zip(results, inputs):
@@ -438,8 +480,22 @@ def build_cases(ctx, results, inputs):
             d = rec["dir"]
             st = rec["st"]
             replay = {"scenario": sc.to_json(), "reads": reads, "base": base.to_json(), "start": start.to_json(),
-                      "steps": steps[:rec["step"] + 1]}
+                      "steps": steps[:max(rec["step"], 0) + 1]}
             desc = f"history {rec['hist']} step {rec['step']} {st} (start pre-phased: {pre})"
+            if st["kind"] == "start_reinput":
+                ctx.tally("reinput.runs_on_prephased_start_file")
+                re_path, rc, se = rec["re"]
+                if rc != 0:
+                    ctx.violation("phaseinput:tool-failed", "`whatshap phase base.vcf start.vcf` failed on the pre-phased generated file: "
+                                  + desc + " :: " + se[-300:], replay)
+                    continue
+                rb0 = read_back(os.path.join(d, "s0.vcf"))
+                if rb0[0] != "ok":
+                    ctx.violation("c09:readback-error", f"VcfReader(phases=True) raises {rb0[1]}: {rb0[2]} on the generated pre-phased file :: " + desc, replay)
+                    continue
+                make_rcase(ctx, d, list(sc.samples), "s0.vcf", rb0, re_path, os.path.join(d, "retrace0.jsonl"), 15,
+                           desc + " (re-input of the generated pre-phased file)", replay, R)
+                continue
             ctx.tally("steps." + st["kind"])
             for k in ("distrust", "only_snvs", "ped", "samples"):
                 if st.get(k):
@@ -532,25 +588,10 @@ def build_cases(ctx, results, inputs):
                         else:
                             ctx.violation("phaseinput:tool-failed", "`whatshap phase base.vcf phased.vcf` failed: " + desc + " :: " + se[-300:], replay)
                     continue
-                cap = st.get("reinput_max_coverage") or 15
-                if rbs[tag][0] == "ok" and max_set_coverage(rbs[tag][1]) > cap:
-                    ctx.tally("reinput.sets_over_coverage_cap")      # the property only speaks about sets that fit
-                    continue
-                ctx.tally("reinput.max_coverage.%d" % cap)
-                if rbs[tag][0] == "ok" and max_set_coverage(rbs[tag][1]) == cap:
-                    ctx.tally("reinput.sets_exactly_at_cap")
-                rb_base = read_back(os.path.join(d, "base.vcf"))
-                rb_re = read_back(os.path.join(d, re_path))
-                rreads = []
-                rt = os.path.join(d, f"retrace{rec['step'] + 1}.jsonl")
-                for ln in (json.loads(x) for x in open(rt)) if os.path.exists(rt) else []:
-                    if len(ln["family"]) == 1:
-                        rds = ["[" + "; ".join(f"({vcfabs._z(int(v[0]))}, {int(v[1])}%nat)" for v in r["variants"]) + "]" for r in ln["reads"]]
-                        rreads.append(f"({vcfabs._z(vcfabs.chrom_token(ln['chromosome'], it))}, {fin.samples.index(ln['family'][0])}%nat, [" + "; ".join(rds) + "])")
-                rterm = ("(mkRStep [" + "; ".join(f"{i}%nat" for i in range(len(fin.samples))) + "]\n " + tabs_term(rb_base, it) + "\n "
-                         + tabs_term(rbs[tag], it) + "\n " + tabs_term(rb_re, it) + "\n [" + ";\n ".join(rreads) + "])")
                 if rbs[tag][0] == "ok":
-                    R.append({"term": rterm, "desc": desc + " + re-input of the " + tag + " output", "replay": replay})
+                    make_rcase(ctx, d, fin.samples, rec["outs"][tag][0], rbs[tag], re_path,
+                               os.path.join(d, f"retrace{rec['step'] + 1}.jsonl"), st.get("reinput_max_coverage") or 15,
+                               desc + " + re-input of the " + tag + " output", replay, R)
     return P, U, R
 
 
@@ -566,6 +607,14 @@ def classify_decode(ctx, c, tag, failing, i):
     if tag == "HP" and nonascending_source(c["fin"], c["fouts"]["HP"], c["plan"]):
         return "writer:hp-assumes-ascending-gt"
     return "c09:decode-mismatch"
+
+
+def l2_report(ctx, name, cases):
+    """record a model/implementation disagreement; also as a violation of its own, so that an unrelated finding of the
+    same run cannot mask it"""
+    ctx.l2_disagreement(name, [c["desc"] for c in cases])
+    ctx.violation("correspondence:" + name.split(" (")[0][:60], "the model no longer describes the code: " + name + " :: " + cases[0]["desc"],
+                  cases[0]["replay"], found_input=False)
 
 
 def evaluate(ctx, P, U, R):
@@ -618,7 +667,7 @@ def evaluate(ctx, P, U, R):
         for lab in ("l2_writer_PS", "l2_writer_HP", "l2_reader_PS", "l2_reader_HP"):
             if failing[lab]:
                 ctx.disagreements_checked += len(failing[lab])
-                ctx.l2_disagreement(lab + " (model vs implementation)", [P[i]["desc"] for i in failing[lab]])
+                l2_report(ctx, lab + " (model vs implementation)", [P[i] for i in failing[lab]])
     if U:
         failing, errors = eval_checks("C09u", HEADER, U_CHECKS, [c["term"] for c in U], shard=40, timeout=900)
         if errors:
@@ -628,16 +677,19 @@ def evaluate(ctx, P, U, R):
             ctx.violation("unphase:phase-left", "phase information is decodable after whatshap unphase :: " + U[i]["desc"], U[i]["replay"])
         for lab in ("l2_unphase", "l2_reader_u"):
             if failing[lab]:
-                ctx.l2_disagreement(lab + " (model vs implementation)", [U[i]["desc"] for i in failing[lab]])
+                l2_report(ctx, lab + " (model vs implementation)", [U[i] for i in failing[lab]])
     if R:
         failing, errors = eval_checks("C09r", HEADER, R_CHECKS, [c["term"] for c in R], shard=40, timeout=900)
         if errors:
             raise RuntimeError("coq evaluation failed: " + errors[0][1])
         res["R"] = failing
-        if failing["l2_reads"]:
-            ctx.disagreements_checked += len(failing["l2_reads"])
-            ctx.l2_disagreement("VcfRecord.blocks_as_reads = reads used by `whatshap phase base.vcf phased.vcf` (L2)",
-                                [R[i]["desc"] for i in failing["l2_reads"]])
+        for lab, what in (("l2_reads", "VcfRecord.blocks_as_reads = reads used by `whatshap phase base.vcf phased.vcf` (L2)"),
+                          ("l2_reader_orig", "VcfRecord.read_file = VcfReader(phases=True) on the phased input file (L2)"),
+                          ("l2_reader_base", "VcfRecord.read_file = VcfReader(phases=True) on base.vcf (L2)"),
+                          ("l2_reader_re", "VcfRecord.read_file = VcfReader(phases=True) on the re-phased file (L2)")):
+            if failing[lab]:
+                ctx.disagreements_checked += len(failing[lab])
+                l2_report(ctx, what, [R[i] for i in failing[lab]])
         for i in failing["reproduced"][:3]:
             ctx.violation("phaseinput:set-not-reproduced",
                           "phasing with the phased VCF as only input does not reproduce a phase set with >= 2 shared heterozygous variants :: "
@@ -678,7 +730,7 @@ def quiet_htslib():
 
 def run(ctx):
     quiet_htslib()
-    run_histories(ctx, ctx.n(100, 600))
+    run_histories(ctx, ctx.n(80, 600))
 
 
 def replay(ctx, data):
